@@ -1,4 +1,4 @@
-from . import rules_rep, rules_list, rules_hash, inputs
+from . import rules_c03, rules_rep, rules_list, rules_hash, inputs
 from spec import geometry as G
 
 
@@ -31,6 +31,9 @@ def run(ctx, prog, facts, tier):
     ms = modes(tier)
     rules_rep.check_c06(ctx, prog, I, ms)
     rules_list.check_list(ctx, prog, I, 'C06')
+    # the captured-this-turn flag switches the filter off: set by a capture, sticky within the turn, cleared at turn end (C03 clauses)
+    from .check_c03 import MOVES_Q, STATUS
+    rules_c03.check_transitions(ctx, prog, inputs.make_interp(prog, fuel=5000000), MOVES_Q[:2], STATUS[:1])
     # the two tests compare hashes: a board feature that does not reach the hash (or shares a table row with another) makes them
     # withhold actions whose result is a different board
     rules_hash.check_tables(ctx, prog)
